@@ -95,15 +95,13 @@ def _startswith(a: pathlib.Path, b: pathlib.Path) -> bool:
 
 
 @functools.lru_cache(maxsize=8192)
-def default_code_filter(code: CodeType) -> bool:
-    """A CodeFilter to exclude stdlib and site-packages."""
+def _is_traced_file(co_filename: str, trace_modules_str: Optional[str]) -> bool:
     # Filter code without a source file
-    if not code.co_filename or code.co_filename[0] == "<":
+    if not co_filename or co_filename[0] == "<":
         return False
 
-    filename = pathlib.Path(code.co_filename).resolve()
+    filename = pathlib.Path(co_filename).resolve()
     # if MONKEYTYPE_TRACE_MODULES is defined, trace only specified packages or modules
-    trace_modules_str = os.environ.get("MONKEYTYPE_TRACE_MODULES")
     if trace_modules_str is not None:
         trace_modules = trace_modules_str.split(",")
         # try to remove lib_path to only check package and module names
@@ -116,6 +114,22 @@ def default_code_filter(code: CodeType) -> bool:
         return any(m == filename.stem or m in filename.parts for m in trace_modules)
     else:
         return not any(_startswith(filename, lib_path) for lib_path in LIB_PATHS)
+
+
+def _default_code_filter(code: CodeType) -> bool:
+    """A CodeFilter to exclude stdlib and site-packages."""
+    # The verdict is cached per file name (and allow-list), not per code
+    # object: code objects compare equal regardless of the file they were
+    # compiled from, so textually identical functions in two files would
+    # otherwise share one cache entry.
+    return _is_traced_file(
+        code.co_filename, os.environ.get("MONKEYTYPE_TRACE_MODULES")
+    )
+
+
+@functools.wraps(_default_code_filter)
+def default_code_filter(code: CodeType) -> bool:
+    return _default_code_filter(code)
 
 
 class DefaultConfig(Config):
